@@ -307,9 +307,11 @@ pub mod rdfc_ref {
                     let better = match &chosen_path {
                         None => true,
                         Some(c) => {
-                            if path == *c {
-                                // two permutations give the same path: which issuer is kept depends on
-                                // the (unspecified) order in which permutations are visited
+                            if path == *c && chosen_issuer.as_ref().map(|i: &Issuer| i.order != issuer_copy.order).unwrap_or(true) {
+                                // two permutations give the same path but another issuer: which issuer is
+                                // kept depends on the (unspecified) order in which permutations are visited
+                                // (permutations of a list in which a node occurs twice that are the same
+                                // sequence lead to the same issuer: nothing is open there)
                                 self.stats.ties = true;
                             }
                             path.as_str() < c.as_str() || (self.tie_last && path == *c)
@@ -1315,6 +1317,10 @@ impl Check for C06 {
                         // cannot be adjudicated soundly: ties exist, and the search over tie resolutions
                         // is not exhaustive. Counted, not failed (label-dependence is C05's business).
                         ctx.class(if alts.len() > 1 { "rdfc10-ambiguous-input(unresolved)" } else { "tie-mismatch(unresolved)" });
+                        if std::env::var_os("VERIF_C06_STRICT_TIES").is_some() {
+                            // debugging knob: report them, to look at the inputs
+                            ctx.fail(format!("debug/unresolved/{}", alts.len().min(2)), format!("input:\n{}\n sophia:\n{nq}\n reference:\n{}\n alternatives: {}", show_quads(&qs), r.nquads, alts.len()));
+                        }
                         return;
                     }
                 }
